@@ -191,6 +191,10 @@ def add_interface(p: Prog, k: int, ev: int, form: int):
         p.stmt(f"module procedure s{k}")
         p.links.append(("generic", f"g{k}", f"s{k}"))
         p.end(ev)
+    elif form in (3, 4):  # defined operator / assignment: an unnamed generic block
+        p._open("interface", "#GEN_INT", "interface operator(+)" if form == 3 else "interface assignment(=)")
+        p.stmt(f"module procedure s{k}")
+        p.end(1)
     else:
         p._open("interface", "#GEN_INT", "abstract interface" if form == 1 else "interface")
         p._open("sub", f"ib{k}", f"subroutine ib{k}(a)")
@@ -226,7 +230,9 @@ class Layout:
 
     def __init__(self, form="free", case=0, blank_before=None, comment_before=None, trail_blank=False,
                  trail_comment=None, split=None, lead_amp=False, join=None, indent=2, eol="\n", fixed_cchar="C",
-                 fixed_cont="&", cont_gap=None):
+                 fixed_cont="&", cont_gap=None, cont_comment=None, base_indent=0):
+        self.cont_comment = cont_comment      # trailing comment after the '&' of a continued line (may itself contain '&')
+        self.base_indent = base_indent        # blanks in front of every free-form line
         self.cont_gap = cont_gap              # a blank / whitespace-only / comment line between continuation lines
         self.form, self.case = form, case
         self.blank_before = blank_before      # stmt index before which a blank line is inserted (or None)
@@ -267,7 +273,7 @@ def layout(p: Prog, lay: Layout):
         if lay.comment_before == i:
             lines.append((lay.fixed_cchar + " ordinary comment end do") if fixed else (" " * (lay.indent * depth_here) + "! ordinary comment; end do"))
         toks = [_case(t, lay.case) for t in st.toks]
-        ind = " " * (lay.indent * depth_here)
+        ind = " " * (lay.base_indent + lay.indent * depth_here)
         label = st.label
         if fixed:
             head = (label or "").ljust(5) + " " if label else "      "
@@ -284,7 +290,7 @@ def layout(p: Prog, lay: Layout):
                     lines.append(lay.fixed_cchar + lay.cont_gap if lay.cont_gap.strip() else lay.cont_gap)
                 lines.append("     " + lay.fixed_cont + " " * len(ind[6:]) + second)
             else:
-                lines.append(ind + first + " &")
+                lines.append(ind + first + " &" + (lay.cont_comment or ""))
                 if lay.cont_gap is not None:
                     lines.append(lay.cont_gap)
                 lines.append(ind + ("& " if lay.lead_amp else "  ") + second)
